@@ -13,7 +13,10 @@ for id in "${ids[@]}"; do
   [ -f $d/patch.diff ] || continue
   prop=$(echo "$id" | grep -oE 'C[0-9]{2}' | head -1)
   props="$prop"; [ -f $d/check_props ] && props=$(cat $d/check_props)
-  tools/eval_iso.sh $d/patch.diff $props > $tmp 2>&1
+  # a change whose delivered patch no longer applies because /repo's HEAD received a fix in the same lines
+  # since carries the same edit rebased on HEAD as patch.head.diff
+  pf=$d/patch.diff; [ -f $d/patch.head.diff ] && pf=$d/patch.head.diff
+  tools/eval_iso.sh $pf $props > $tmp 2>&1
   python3 - "$d" "$props" "$tmp" <<'PY'
 import json,sys,re
 d,props,tmp=sys.argv[1:4]
